@@ -682,6 +682,10 @@ class Interp:
             if p == ORDERING:
                 vn = self.choose("variant:" + name, ["Less", "Equal", "Greater"])
                 return StructV(p, vn, {})
+            if p == RESULT:
+                vn = self.choose("variant:" + name, ["Ok", "Err"])
+                ti = t["a"][0] if vn == "Ok" else t["a"][1]
+                return StructV(p, vn, {"0": Cell(UnkV(ti, "%s.%s" % (name, vn.lower())), "%s.%s" % (name, vn.lower()))})
             return SymV(name, tyi)
         return SymV(name, tyi)
 
